@@ -154,6 +154,25 @@ func (d *duplex) genuine(i int) ([]byte, []int) {
 	return all, ends
 }
 
+// divergence compares what was delivered in direction i with the genuine units:
+// number of genuine units, index of the first unit that did not arrive unaltered
+// at its place (= number of units if only extra bytes follow the last one), and
+// whether anything differs at all.
+func (d *duplex) divergence(i int) (nUnits, firstBad int, tampered bool) {
+	d.mu.Lock()
+	defer d.mu.Unlock()
+	dr := d.dir[i]
+	del := dr.delivered
+	off := 0
+	for idx, u := range dr.units {
+		if off+len(u) > len(del) || !bytes.Equal(del[off:off+len(u)], u) {
+			return len(dr.units), idx, true
+		}
+		off += len(u)
+	}
+	return len(dr.units), len(dr.units), off != len(del)
+}
+
 func (d *duplex) deliveredBytes(i int) []byte {
 	d.mu.Lock()
 	defer d.mu.Unlock()
@@ -174,13 +193,15 @@ func (d *duplex) unit(i, k int) []byte {
 // mitm tampers with the units of one direction.  It knows no secrets: it sees
 // and forwards ciphertext units only.
 type mitm struct {
-	Kind   string // flip | swap | replay | drop | trunc | cut | subst | reflect | splice | insert
+	Kind   string // flip | swap | replay | drop | trunc | cut | subst | reflect | splice | insert | far-*
 	Frame  int    // target unit
-	Arg    int    // flip: byte offset; trunc/cut: bytes kept; reflect: unit index of the opposite direction
+	Arg    int    // flip: byte offset; trunc/cut: bytes kept; reflect: unit index of the opposite direction; far-*: distance d
 	Bit    int    // flip: bit number
 	Other  []byte // splice/subst/insert: the foreign unit
 	held   []byte
 	hasHld bool
+	// far-* kinds: units Frame..Frame+Arg held back until the last of them exists
+	heldFar [][]byte
 	// applied reports that the tampering really took place (e.g. the reflected unit existed)
 	applied bool
 }
@@ -188,6 +209,10 @@ type mitm struct {
 var errNoUnit = errors.New("unit not available")
 
 func (m *mitm) process(d *duplex, out, opp *direction, idx int, unit []byte) {
+	if farKinds[m.Kind] {
+		m.processFar(out, idx, unit)
+		return
+	}
 	if idx != m.Frame {
 		if m.Kind == "swap" && idx == m.Frame+1 && m.hasHld {
 			out.deliver(unit)
@@ -254,8 +279,83 @@ func (m *mitm) process(d *duplex, out, opp *direction, idx int, unit []byte) {
 	}
 }
 
+// The far-* kinds act on the anchor unit a = Frame and the unit a+d, d = Arg >= 1
+// (a man in the middle may delay what it has seen for as long as it likes):
+//
+//	far-replay     unit a is delivered a second time just before unit a+d
+//	far-overwrite  unit a is delivered a second time in the place of unit a+d
+//	far-swap       units a and a+d change places
+//	far-advance    unit a+d is delivered before unit a (a .. a+d-1 follow)
+//	far-delay      unit a is delivered after unit a+d
+var farKinds = map[string]bool{"far-replay": true, "far-overwrite": true, "far-swap": true, "far-advance": true, "far-delay": true}
+
+var farKindList = []string{"far-replay", "far-overwrite", "far-swap", "far-advance", "far-delay"}
+
+func (m *mitm) processFar(out *direction, idx int, unit []byte) {
+	a, b := m.Frame, m.Frame+m.Arg
+	if m.Arg < 1 || idx < a || idx > b {
+		out.deliver(unit)
+		return
+	}
+	switch m.Kind {
+	case "far-replay", "far-overwrite":
+		// nothing needs to be held back: remember the anchor
+		if idx == a {
+			m.held, m.hasHld = unit, true
+			out.deliver(unit)
+			return
+		}
+		if idx < b {
+			out.deliver(unit)
+			return
+		}
+		out.deliver(m.held)
+		if m.Kind == "far-replay" {
+			out.deliver(unit)
+		}
+		m.hasHld = false
+		m.applied = true
+		return
+	}
+	m.heldFar = append(m.heldFar, unit)
+	if idx < b {
+		return
+	}
+	h := m.heldFar
+	m.heldFar = nil
+	n := len(h) // == d+1: h[0] = unit a, h[n-1] = unit a+d
+	switch m.Kind {
+	case "far-swap":
+		out.deliver(h[n-1])
+		for _, u := range h[1 : n-1] {
+			out.deliver(u)
+		}
+		out.deliver(h[0])
+	case "far-advance":
+		out.deliver(h[n-1])
+		for _, u := range h[:n-1] {
+			out.deliver(u)
+		}
+	case "far-delay":
+		for _, u := range h[1:] {
+			out.deliver(u)
+		}
+		out.deliver(h[0])
+	}
+	m.applied = true
+}
+
 // flush releases a unit still held when the writer finishes (swap with no successor).
 func (m *mitm) flush(out *direction) {
+	if farKinds[m.Kind] {
+		// the script ended before unit a+d existed: everything goes out untouched
+		for _, u := range m.heldFar {
+			out.deliver(u)
+		}
+		m.heldFar = nil
+		m.hasHld = false
+		return
+	}
 	if m.hasHld {
 		out.deliver(m.held)
 		m.hasHld = false
